@@ -82,6 +82,8 @@ class Ctx:
             w["prop"] = witness.get("prop", self.prop)
             w["variant"] = self.variant
             w["shard"] = self.shard
+            w["replay"] = dict(module=self.prop, shard=self.shard, nshards=self.nshards, seed=self.seed, tier=self.tier,
+                               variant=self.variant)
             self.violations.append(w)
 
     def scale(self, quick, thorough):
